@@ -825,3 +825,70 @@ Theorem sens_product_rule (s : R -> R) (b : R -> Cx) u ds db : s u <> 0 ->
 Proof.
   intros Hs Ds Db. rewrite sens_term_correct by auto. rewrite cadd_comm. apply cderive_cscal; auto.
 Qed.
+
+(* ================================================================== J. the list-level functions are made of the entries *)
+Section Entries.
+Context {T B : Type} (Op : Ops T B).
+Variable d : nat.
+
+(* every number of calculate_derivative_of_control_matrix_from_scratch is an [assemble_entry] of the per-segment
+   derivatives, the Liouville propagators, the per-segment control matrices and the Liouville derivatives *)
+Theorem ctrlmat_deriv_entry thr th3 evs Vs Qs omega basis nopers copers ncoeffs dts ts use_ncd ncd a h s o k :
+  (a < List.length nopers)%nat -> (h < List.length copers)%nat -> (s < List.length dts)%nat ->
+  (o < List.length omega)%nat -> (k < List.length basis)%nat ->
+  let G := List.length dts in let nj := List.length basis in let no := List.length omega in
+  let phases := sh_phase Op ts omega G in
+  let BTs := sh_BT Op d Vs basis in
+  let NTs := noise_NT Op d Vs (nthm nopers a) (nthv ncoeffs a) G in
+  let steps := noise_steps Op d G nj no phases BTs (sh_ints Op d thr evs dts omega) NTs in
+  let cd := nth h (map (ctrl_data Op d G nj evs Vs Qs dts (sh_X Op d Qs basis G)) copers) ([], []) in
+  let SD := pair_SD Op d G nj no phases BTs (sh_DIs Op d th3 evs dts omega) NTs (fst cd) steps use_ncd
+                    (nth2 [] ncd a h) (nthv ncoeffs a) in
+  nth k (nth o (nth s (nth h (nth a
+    (ctrlmat_deriv Op d thr th3 evs Vs Qs omega basis nopers copers ncoeffs dts ts use_ncd ncd) []) []) []) []) (c0 Op)
+  = assemble_entry Op nj G (fun j => nth3 (c0 Op) SD s j o) (rget Op (nth s (sh_Ls Op d Qs basis) []))
+      (fun g j => nth3 (c0 Op) steps g j o) (fun t j k' => nth4 (o0 Op) (snd cd) t s j k') k.
+Proof.
+  intros Ha Hh Hs Ho Hk. cbv zeta. unfold ctrlmat_deriv. cbv zeta.
+  rewrite (nth_build _ _ a) by assumption. rewrite (nth_build _ _ h) by assumption.
+  unfold pair_of. cbv zeta. unfold pair_deriv.
+  rewrite (nth_build _ _ s) by assumption. rewrite (nth_build _ _ o) by assumption.
+  rewrite (nth_build _ _ k) by assumption. reflexivity.
+Qed.
+
+(* every number of get_filter_function_derivative is an [ffd_entry] *)
+Theorem filter_function_derivative_entry na nh G nj no Bm CD a s h o :
+  (a < na)%nat -> (s < G)%nat -> (h < nh)%nat -> (o < no)%nat ->
+  nth4 (o0 Op) (filter_function_derivative Op na nh G nj no Bm CD) a s h o
+  = ffd_entry Op nj (fun k => a3get Op Bm a k o)
+                    (fun k => nth k (nth o (nth s (nth h (nth a CD []) []) []) []) (c0 Op)).
+Proof.
+  intros Ha Hs Hh Ho. unfold nth4, filter_function_derivative.
+  rewrite (nth_build _ _ a) by assumption. rewrite (nth_build _ _ s) by assumption.
+  rewrite (nth_build _ _ h) by assumption. rewrite (nth_build _ _ o) by assumption. reflexivity.
+Qed.
+(* the materialised derivative integral holds the entries *)
+Theorem a4get_deriv_integral th3 w ev dt p q m n : (p < d)%nat -> (q < d)%nat -> (m < d)%nat -> (n < d)%nat ->
+  a4get Op (deriv_integral Op d th3 w ev dt) p q m n = deriv_integral_entry Op th3 w ev dt p q m n.
+Proof.
+  intros Hp Hq Hm Hn. unfold a4get, deriv_integral.
+  rewrite (nth_build _ _ p) by assumption. rewrite (nth_build _ _ q) by assumption.
+  rewrite (nth_build _ _ m) by assumption. rewrite (nth_build _ _ n) by assumption. reflexivity.
+Qed.
+
+(* every number of _control_matrix_at_timestep_derivative is a [step_deriv_entry] of the matrix of [M_entry]s
+   (plus the [sens_term] when n_coeffs_deriv is given) *)
+Theorem pair_SD_entry G nj no phases BTs DIs NTs CBs steps use_ncd ncd_row s_row g j o :
+  (g < G)%nat -> (j < nj)%nat -> (o < no)%nat ->
+  nth3 (c0 Op) (pair_SD Op d G nj no phases BTs DIs NTs CBs steps use_ncd ncd_row s_row) g j o
+  = let base := step_deriv_entry Op d (nth2 (c0 Op) phases g o) (nth2 [] BTs g j)
+                  (mbuild d d (M_entry Op d (a4get Op (nth2 [] DIs g o)) (nthm CBs g) (nthm NTs g))) in
+    if use_ncd then cadd Op base (sens_term Op (vg Op ncd_row g) (vg Op s_row g) (nth3 (c0 Op) steps g j o))
+    else base.
+Proof.
+  intros Hg Hj Ho. unfold nth3 at 1. unfold pair_SD.
+  rewrite (nth_build _ _ g) by assumption. cbv zeta.
+  rewrite (nth_build _ _ j) by assumption. rewrite (nth_build _ _ o) by assumption.
+  unfold nthm. rewrite (nth_build _ _ o) by assumption. reflexivity.
+Qed.
+End Entries.
